@@ -255,17 +255,29 @@ func prepare() (string, error) {
 }
 
 // buildTest builds the test binary of one repo package through the overlay.
-func buildTest(work, pkg string) (string, error) {
+func buildTest(work, pkg string) (string, error) { return buildTestMode(work, pkg, false) }
+
+func buildTestMode(work, pkg string, race bool) (string, error) {
 	bin := filepath.Join(work, strings.ReplaceAll(pkg, "/", "__")+".test")
+	if race {
+		bin += ".race"
+	}
 	buildMu.Lock()
 	defer buildMu.Unlock()
 	if _, err := os.Stat(bin); err == nil {
 		return bin, nil
 	}
 	t0 := time.Now()
-	cmd := exec.Command("go", "test", "-c", "-o", bin, "-overlay", filepath.Join(work, "overlay.json"), "-tags", "verif", "-vet=off", "./"+pkg)
+	args := []string{"test", "-c", "-o", bin, "-overlay", filepath.Join(work, "overlay.json"), "-tags", "verif", "-vet=off"}
+	if race {
+		args = append(args, "-race")
+	}
+	cmd := exec.Command("go", append(args, "./"+pkg)...)
 	cmd.Dir = repoDir
 	cmd.Env = goEnv()
+	if race {
+		cmd.Env = append(cmd.Env, "CGO_ENABLED=1")
+	}
 	out, err := cmd.CombinedOutput()
 	if err != nil {
 		return "", fmt.Errorf("build of %s failed: %v\n%s", pkg, err, out)
@@ -343,7 +355,7 @@ func cmdRun(args []string) int {
 				continue
 			}
 		}
-		bin, err := buildTest(work, job.Pkg)
+		bin, err := buildTestMode(work, job.Pkg, job.Race)
 		if err != nil {
 			fmt.Println("ERROR:", err)
 			return 2
@@ -417,6 +429,15 @@ func runJob(bin string, job Job, scns []string, tier string, budgetS float64, se
 				fmt.Sprintf("VERIF_SHARD=%d/%d", u.shard, u.n),
 				fmt.Sprintf("VERIF_DEADLINE_S=%f", budgetS),
 				"VERIF_OUT="+out, "GOMAXPROCS=2", "GOMEMLIMIT=3GiB")
+			raceLog := filepath.Join(outDir, fmt.Sprintf("race%d", ui))
+			if job.Race {
+				runs := "200"
+				if tier == "thorough" {
+					runs = "2000"
+				}
+				cmd.Env = append(cmd.Env, "VERIF_RACE=1", "VERIF_RACE_RUNS="+runs, "VERIF_PROCS=8", "GOMAXPROCS=8",
+					"GORACE=log_path="+raceLog+" halt_on_error=0 exitcode=0")
+			}
 			done := make(chan struct{})
 			var cout []byte
 			var cerr error
@@ -439,11 +460,60 @@ func runJob(bin string, job Job, scns []string, tier string, budgetS float64, se
 				errs = append(errs, fmt.Sprintf("worker %s: bad report: %v", u.scn, err))
 				return
 			}
+			if job.Race {
+				for _, v := range parseRaceLogs(raceLog, u.scn) {
+					if len(wo.Reports) > 0 {
+						wo.Reports[0].Violations = append(wo.Reports[0].Violations, v)
+					}
+				}
+			}
 			reps = append(reps, wo.Reports...)
 		}(ui, u)
 	}
 	wg.Wait()
 	return reps, errs
+}
+
+// parseRaceLogs turns the race detector's reports into violations (one per distinct pair of functions).
+func parseRaceLogs(prefix, scn string) []violation {
+	files, _ := filepath.Glob(prefix + ".*")
+	seen := map[string]bool{}
+	var out []violation
+	for _, f := range files {
+		b, err := os.ReadFile(f)
+		if err != nil {
+			continue
+		}
+		for _, blk := range strings.Split(string(b), "WARNING: DATA RACE")[1:] {
+			var fns []string
+			for _, line := range strings.Split(blk, "\n") {
+				t := strings.TrimSpace(line)
+				if strings.HasPrefix(t, "github.com/samaritan-proxy/samaritan/") && !strings.Contains(t, "/verifrt/") && !strings.Contains(t, "zz_verif") {
+					fn := strings.TrimPrefix(t, "github.com/samaritan-proxy/samaritan/")
+					if i := strings.Index(fn, "("); i > 0 && !strings.HasPrefix(fn[i:], "(*") {
+						fn = fn[:i]
+					}
+					if i := strings.LastIndex(fn, "()"); i > 0 {
+						fn = fn[:i]
+					}
+					fns = append(fns, fn)
+					if len(fns) == 1 {
+						break
+					}
+				}
+			}
+			sig := "data-race / " + strings.Join(fns, " vs ")
+			if seen[sig] {
+				continue
+			}
+			seen[sig] = true
+			if len(blk) > 2500 {
+				blk = blk[:2500]
+			}
+			out = append(out, violation{Scenario: scn, Sig: sig, Detail: "the race detector reported unsynchronised accesses in a free-running run of the harness body:\nWARNING: DATA RACE" + blk, Replayed: true, Input: json.RawMessage(`{"race":true}`)})
+		}
+	}
+	return out
 }
 
 func tail(s string, n int) string {
@@ -690,6 +760,29 @@ func cmdReplay(args []string) int {
 	if err != nil {
 		fmt.Println("ERROR:", err)
 		return 2
+	}
+	if strings.Contains(string(v.Input), `"race":true`) {
+		rbin, err := buildTestMode(work, v.Pkg, true)
+		if err != nil {
+			fmt.Println("ERROR:", err)
+			return 2
+		}
+		dir, _ := os.MkdirTemp(filepath.Join(verifDir, ".work"), "race")
+		defer os.RemoveAll(dir)
+		cmd := exec.Command(rbin, "-test.run", "^TestVerif$", "-test.count", "1")
+		cmd.Dir = repoDir
+		cmd.Env = append(os.Environ(), "VERIF_SCENARIO="+v.Scenario, "VERIF_RACE=1", "VERIF_RACE_RUNS=2000", "VERIF_PROCS=8", "VERIF_OUT="+filepath.Join(dir, "out.json"),
+			"GORACE=log_path="+filepath.Join(dir, "race")+" halt_on_error=0 exitcode=0")
+		cmd.CombinedOutput()
+		for _, rv := range parseRaceLogs(filepath.Join(dir, "race"), v.Scenario) {
+			fmt.Println(rv.Detail)
+			if rv.Sig == v.Sig {
+				fmt.Printf("REPLAY-REPRODUCED %s\nVIOLATION property=%s replay=%s\n", v.Sig, v.Property, args[0])
+				return 1
+			}
+		}
+		fmt.Println("REPLAY-NOT-REPRODUCED", v.Sig)
+		return 0
 	}
 	bin, err := buildTest(work, v.Pkg)
 	if err != nil {
